@@ -855,7 +855,7 @@ func c11Skeleton(kind string, depth int) c11El {
 	return e
 }
 
-func deepCopy(v any) any {
+func c11_deepCopy(v any) any {
 	b, _ := json.Marshal(v)
 	var out any
 	json.Unmarshal(b, &out)
@@ -1064,7 +1064,7 @@ func genC11(ctx *hx.Ctx, emit func(hx.Case)) {
 					if !ctx.Thorough() && (pi+si+ei)%3 != 0 && !(allowed == false && sp.fragment && si >= 12) {
 						continue // quick tier: a third of the grid (all of the remote fragment spellings with the switch off)
 					}
-					root := deepCopy(skel).(map[string]any)
+					root := c11_deepCopy(skel).(map[string]any)
 					var text string
 					files := []any{}
 					if sp.fragment {
@@ -1121,7 +1121,7 @@ func shrinkC11(c hx.Case) []hx.Case {
 	var out []hx.Case
 	g0, _ := c["g"].(map[string]any)
 	mk := func(mut func(g map[string]any) bool) {
-		g := deepCopy(g0).(map[string]any)
+		g := c11_deepCopy(g0).(map[string]any)
 		if mut(g) {
 			out = append(out, c11Derive(hx.Case{"g": g}))
 		}
